@@ -8,7 +8,7 @@
 (* of sctptransport.go: the smallest free id of the role's parity.             *)
 EXTENDS Naturals, Sequences, FiniteSets, TLC, Json
 
-CONSTANTS MaxSteps, ExplicitIds, MaxChans
+CONSTANTS MaxSteps, ExplicitIds, MaxChans, RecordPath
 
 Peers == {"A", "B"}
 Other(p) == IF p = "A" THEN "B" ELSE "A"
@@ -18,14 +18,15 @@ NoId == 100000
 VARIABLES chans,      \* chans[p]: sequence of [id, explicit, negotiated, origin ("local"|"remote"), closed]
           used,       \* used[p]: ids the endpoint's allocator considers taken
           connected, n, last,
-          connectAt   \* the step at which the association comes up (chosen initially)
+          connectAt,  \* the step at which the association comes up (chosen initially)
+          path
 
-vars == <<chans, used, connected, n, last, connectAt>>
+vars == <<chans, used, connected, n, last, connectAt, path>>
 St == [chans |-> chans, connected |-> connected, n |-> n]
 
 Init == /\ chans = [p \in Peers |-> <<>>] /\ used = [p \in Peers |-> {}]
         /\ connected = FALSE /\ n = 0 /\ last = [op |-> "init"]
-        /\ connectAt \in 0..(MaxSteps - 2)
+        /\ connectAt \in 0..(MaxSteps - 2) /\ path = <<>>
 
 Tick == n < MaxSteps /\ n' = n + 1
 Alloc(p, taken) == CHOOSE i \in 0..(2 * MaxChans + 12) : i % 2 = Parity(p) /\ i \notin taken
@@ -69,7 +70,10 @@ AsRemote(cs) == [i \in 1..Len(cs) |-> [cs[i] EXCEPT !.origin = "remote", !.expli
 Ids(cs) == {cs[i].id : i \in 1..Len(cs)}
 Connect ==
   /\ Tick /\ ~connected
-  /\ LET a == OpenAll(chans["A"], "A", used["A"])
+  /\ LET boot == [id |-> NoId, explicit |-> FALSE, negotiated |-> FALSE, origin |-> "local", closed |-> FALSE]
+         \* an association needs an application section: with no channel at all, A creates one first
+         ca == IF chans["A"] = <<>> /\ chans["B"] = <<>> THEN <<boot>> ELSE chans["A"]
+         a == OpenAll(ca, "A", used["A"])
          b == OpenAll(chans["B"], "B", used["B"])
      IN /\ chans' = [p \in Peers |-> IF p = "A" THEN a \o AsRemote(InBand(b)) ELSE b \o AsRemote(InBand(a))]
         /\ used' = [p \in Peers |-> Ids(a) \cup Ids(b) \cup used[p]]
@@ -87,6 +91,7 @@ Next == /\ UNCHANGED connectAt
            ELSE \/ \E p \in Peers, e \in ExplicitIds \cup {NoId} : Create(p, e)
                 \/ \E e \in ExplicitIds : CreateNegotiated(e)
                 \/ \E p \in Peers, i \in 1..MaxChans : Close(p, i)
+        /\ path' = IF RecordPath THEN Append(path, last') ELSE path
 
 \* ---- normative statements
 Assigned(p) == {i \in 1..Len(chans[p]) : chans[p][i].origin = "local" /\ ~chans[p][i].explicit /\ chans[p][i].id # NoId}
@@ -96,5 +101,6 @@ ModelUnique == \A p \in Peers : \A i \in Assigned(p) : \A j \in 1..Len(chans[p])
                   (j # i /\ chans[p][j].id # NoId) => chans[p][j].id # chans[p][i].id
 ModelStable == [][\A p \in Peers : \A i \in 1..Len(chans[p]) : chans[p][i].id # NoId => chans'[p][i].id = chans[p][i].id]_vars
 
+EmitPath == (n = MaxSteps) => PrintT(<<"VERIF_PATH", ToJson(path)>>)
 EmitEdge == PrintT(<<"VERIF_EDGE", ToJson([f |-> [n |-> n], a |-> last', t |-> [n |-> n']])>>)
 =============================================================================
